@@ -85,7 +85,7 @@ theorem streamAttach_sinv {s s' : State} {c o : Nat} (hk : KeysOK s) (hs : SInv 
   obtain ⟨op, hop, h1⟩ := streamAttach_ok hh
   have hname := (hk.oname o op hop).1
   have hkA : KeysOK (attachS s o op) :=
-    (TStep.of_op (allow := True) (s := s) (s' := attachS s o op) (o2 := { op with waiters := op.waiters + 1 }) hop rfl rfl rfl
+    (TStep.of_op (allow := True) (s := s) (s' := attachS s o op) (o2 := { op with waiters := op.waiters + 1 }) hop rfl rfl id rfl
       (by simp [attachS, hname]) rfl rfl hk).1
   have hopA : ∀ k, (attachS s o op).op? k = if o = k then some { op with waiters := op.waiters + 1 } else s.op? k := by
     intro k; simp [attachS, State.op?, alookup_aset, hname]
